@@ -16,19 +16,11 @@ def fixed(id, props, commit, what, witness):
 REL = ["crash", "schedule-dependent", "mode-dependent", "option-dependent", "order-dependent", "history-dependent",
        "backend-dependent", "variant-disagrees"]
 
-known("KF1-engine-collapsed-resultset-assert", SEMP + ["C27"],
-      "engine raises AssertionError (`assert not self.collapsed` in ResultSet.__setitem__ via EvalDefine.new_result) on a stratified cyclic program",
-      "0.6::g. a :- g, \\+g. a :- c. b :- a. c :- b. c. query(c).   (expected P(c)=1)",
-      match_any=[{"clause": c, "error": "AssertionError", "site": "eval_nodes.py:__setitem__"} for c in REL])
 known("KF2-spurious-negative-cycle-subcycle-under-negation", SEMP,
       "NegativeCycle raised on a stratified program: a negated goal that has a positive cycle of its own is evaluated while an enclosing cycle is open; registering the sub-cycle (cycleDetected -> notify_cycle to the cycle root) walks through the EvalNot",
       "0.3::a :- \\+r. p :- p. r :- r. r :- \\+p. query(a).   (expected P(a)=0, no cycle through negation)",
       match_any=[{"clause": c, "error": "NegativeCycle", "chain": "createCycle<notify_cycle<cycleDetected"}
                  for c in ["negative-cycle-on-stratified"] + REL[1:]])
-known("KF4-negative-self-loop-answered-when-goal-is-cycle-root", SEMP,
-      "a goal that is both on a positive cycle and on a cycle through negation is answered (probability 0) instead of rejected: when the negated re-entry happens after the goal became a cycle root, no NegativeCycle is raised",
-      "0.4::a; 0.5::b. p(X) :- r(X). q :- p(X), b. q :- \\+q. r(Y) :- q. r(Y) :- a. query(q).   (q undefined in every world; reported q: 0)",
-      match={"clause": "answered-negative-cycle", "mixed_cycle": True})
 UNB = ["unbuf", "rc", "rand"]
 known("KF5-unbuffered-indirect-call-cycle-error", ["C04"],
       "unbuffered engine modes (unbuffered=True, rc_first, documented random order) raise IndirectCallCycleError from EvalDefine.cycleDetected on cyclic programs that contain no findall/call at all",
@@ -251,6 +243,16 @@ fixed("FX26-repeated-variable-call-loses-head-bindings", ["C01", "C13", "C14", "
       "Top-level query(p(W,W)) reported answers that are not instances of the query (formerly KF3 / KF3b); inside cycles the answers of other clauses were lost: "
       "0.7::f. 0.1::g. d(a). d(b). q(a,X) :- d(X), g, q(Y,Y). q(X,Y) :- e(X,Y), f. e(a,a). e(a,b). e(b,b). query(q(a,b)). reported 0.07 instead of 0.7",
       "d(c1). d(c2). d(c3). p(Y,c3) :- d(Y). query(p(W,W)).   (reported p(c1,c3), p(c2,c3), p(c3,c3))")
+fixed("FX27-negative-cycle-missed-on-table-hit-of-active-goal", ["C02", "C01", "C03"], "cd9f52a",
+      "a goal that is both on a positive cycle and on a cycle through negation was answered instead of rejected (formerly KF4): the table entry of a ground goal is written when its buffer "
+      "is flushed, i.e. while it is still active, and a later call served from the table never looked for a negation. Found as a counterexample of Engine.tla "
+      "(AnsweredOnlyWhenDefined, Engine_prefix_tablehit.cfg); the repair (dependency closure over open cycles) was model-checked before it was written",
+      "0.3::f. 0.6::g. p :- \\+q. p :- q, g. q :- g. q :- p. query(q). query(p).   (answered; now NegativeCycle)")
+fixed("FX28-false-proof-on-a-cycle", ["C01", "C03", "C27"], "b6488b4",
+      "engine raised AssertionError (`assert not self.collapsed` in ResultSet.__setitem__) or ValueError ('Cannot update failing node') on stratified cyclic programs (formerly KF1): "
+      "a deterministically false first proof of a goal on a cycle was stored as None, taken for 'no result', written to the table while the goal was active, and forwarded as a result "
+      "(as identifier of an EvalAnd's second conjunct None reads as 'first conjunct'). Reproduced message by message by Engine.tla (Engine_prefix_falseresult.cfg)",
+      "0.6::g. t. p :- g, \\+g. p :- r. q :- p. r :- t. r :- q. query(p).   (AssertionError in the default order)")
 fixed("FX1-break-cycles-true-child", ["C01", "C09"], "29bdee9",
       "AssertionError in LogicFormula.get_node(0) from _break_cycles when a disjunction below an evidence node contains the TRUE node",
       "0.1::h(c1). d(c1). d(c2). p(X) :- d(X), r(c1). p(Y) :- d(Y). r(X) :- p(X). r(Y) :- d(Y), h(X). query(p(c1)). evidence(r(c1)).")
